@@ -16,15 +16,15 @@ from canmon import gen, rigs, simbus
 ID = "C10"
 LEVEL = "exploration"
 RULE = ("histories of 50 (quick) / 400 (thorough) operations over a pool of 9 CAN ids (incl. 0, node-owned ids, one 29-bit id), "
-        "8 callbacks (plain functions and bound methods of two objects) and nodes 1,2,5 (local/remote mixed); after every "
-        "received frame the invocation log must equal the reference multimap's list. Frame format: every 11-bit id and "
+        "10 callbacks (plain functions, bound methods of two objects, two callable recorder objects that are falsy while empty) and nodes 1,2,5 (local/remote mixed); after every "
+        "received frame the invocation log must equal the reference multimap's list. Reconnection: the same Network connected and disconnected 2-4 times on python-can's virtual bus with the real Notifier, judged once our own listener placed behind the network's has seen the frames. Frame format: every 11-bit id and "
         "sampled 29-bit ids through send_message and send_periodic. Scanner: every standard id alone (exhaustive) and random "
         "sequences incl. 29-bit ids. Signature = (operation kind, id class, state class); non-trivial = operation on an id "
         "with at least one subscriber or a node operation.")
 ASSUMPTIONS = ["callbacks that (un)subscribe during dispatch are not generated", "PDO handlers after node removal are outside the property",
                "unsubscribe-all is only applied to ids no node owns (a node's own removal would otherwise legitimately fail)",
                "an extended frame whose id is <= 0x7FF cannot be told apart in Network.notify (no flag) and is not generated"]
-REQUIRED = {"dispatch_compared": 500, "frames_format_checked": 2048, "scanner_ids_checked": 2048, "node_effect_checks": 100}
+REQUIRED = {"reconnect_cycles": 4, "dispatch_compared": 500, "frames_format_checked": 2048, "scanner_ids_checked": 2048, "node_effect_checks": 100}
 EXHAUSTIVE = ["frame format rule for all 2048 standard ids", "scanner classification of all 2048 standard ids"]
 
 SERVICES = (0x080, 0x180, 0x280, 0x380, 0x480, 0x580, 0x700)   # own transcription of the predefined connection set (node -> bus)
@@ -44,6 +44,20 @@ class Obj:
 
     def method(self, can_id, data, ts):
         self.log.append((self.name, can_id, bytes(data), ts))
+
+
+class Recorder:
+    """A callable frame recorder with a length: falsy until it has recorded something itself (identity equality)."""
+
+    def __init__(self, name, log):
+        self.name, self.log, self.own = name, log, 0
+
+    def __call__(self, can_id, data, ts):
+        self.own += 1
+        self.log.append((self.name, can_id, bytes(data), ts))
+
+    def __len__(self):
+        return self.own
 
 
 def od_factory():
@@ -68,11 +82,15 @@ def history(ctx, rng, length, hid):
             log.append((f"f{i}", can_id, bytes(data), ts))
         funcs[f"f{i}"] = f
 
+    recs = {"recA": Recorder("recA", log), "recB": Recorder("recB", log)}
+
     def cb(name):
+        if name.startswith("rec"):
+            return recs[name]
         if name.startswith("obj"):
             return objs[0 if name == "objA" else 1].method     # a *new* bound method object every time
         return funcs[name]
-    names = list(funcs) + ["objA", "objB"]
+    names = list(funcs) + ["objA", "objB", "recA", "recB"]
     model = {}                   # can_id -> [callback names] (user callbacks only)
     nodes = {}                   # node id -> node object
     removed = []                 # (node object, kind, id) that must stay untouched
@@ -353,11 +371,87 @@ def scanner_sweep(ctx, rng, part, parts):
     bus.close()
 
 
+class Control:
+    """Our own python-can listener, placed after the network's: once it has seen a frame the network's listener has too."""
+
+    def __init__(self):
+        self.seen = []
+
+    def __call__(self, msg):
+        self.on_message_received(msg)
+
+    def on_message_received(self, msg):
+        self.seen.append((msg.arbitration_id, bytes(msg.data)))
+
+    def on_error(self, exc):
+        pass
+
+    def stop(self):
+        pass
+
+
+def reconnect_scenario(ctx, rng, tag):
+    """The same Network object connected, disconnected and connected again on python-can's virtual bus (real Notifier)."""
+    import os
+    import time
+    import can
+    import canopen
+    chan = f"c10-{os.getpid()}-{tag}"
+    net = canopen.Network()
+    got = []
+    net.subscribe(0x123, lambda cid, d, ts: got.append((cid, bytes(d))))
+    node = net.add_node(5, od_factory())
+    ctl = Control()
+    net.listeners.append(ctl)
+    peer = can.Bus(interface="virtual", channel=chan)
+    try:
+        for cycle in range(rng.randint(2, 4)):
+            case = {"scenario": "reconnect", "cycle": cycle}
+            net.connect(interface="virtual", channel=chan)
+            try:
+                del got[:]
+                state = rng.choice([4, 5, 127])
+                frames = [(0x123, bytes(rng.getrandbits(8) for _ in range(rng.randint(0, 8)))) for _ in range(rng.randint(1, 4))]
+                frames.append((0x705, bytes([state])))
+                mark = len(ctl.seen)
+                for cid, data in frames:
+                    peer.send(can.Message(arbitration_id=cid, data=data, is_extended_id=False))
+                deadline = time.monotonic() + 10.0
+                while len(ctl.seen) < mark + len(frames) and time.monotonic() < deadline:
+                    time.sleep(0.002)
+                if len(ctl.seen) < mark + len(frames):
+                    ctx.inconc("the notifier did not hand the frames to any listener within 10 s", case)
+                    return
+                ctx.count("dispatch_compared")
+                ctx.count("reconnect_cycles")
+                ctx.case(("reconnect", "first" if cycle == 0 else "again"), nontrivial=True)
+                want = [f for f in frames if f[0] == 0x123]
+                if got != want:
+                    ctx.violation("dispatch-missing-callback:after-reconnect" if cycle else "dispatch-missing-callback",
+                                  f"connection #{cycle + 1} of the same Network: frames {[(hex(c), d.hex()) for c, d in want]} reached the "
+                                  f"network's listener but the subscriber got {got}", case)
+                if node.nmt._state != state:
+                    ctx.violation("live-node-missed-frame:remote", f"connection #{cycle + 1}: heartbeat [{state}] left state {node.nmt._state}", case)
+                # outgoing direction
+                net.send_message(0x222, b"\x01\x02")
+                m = peer.recv(5.0)
+                if m is None or m.arbitration_id != 0x222 or bytes(m.data) != b"\x01\x02":
+                    ctx.violation("send-after-reconnect", f"connection #{cycle + 1}: send_message reached the bus as {m}", case)
+            finally:
+                net.disconnect()
+    except Exception as exc:  # noqa: BLE001
+        ctx.violation(f"reconnect-raised:{type(exc).__name__}", f"connect/disconnect cycle raised {exc!r}", {"scenario": "reconnect"})
+    finally:
+        peer.shutdown()
+
+
 def run(ctx, desc):
     rigs.LogCapture()
     rng = random.Random(repr(("c10", desc["cs"])))
     for h in range(desc["histories"]):
         history(ctx, rng, desc["length"], f"{desc['cs']}-{h}")
+    for k in range(2 if desc["histories"] < 100 else 10):
+        reconnect_scenario(ctx, rng, f"{desc['cs']}-{k}")
     frame_format_sweep(ctx, rng, desc["part"], desc["parts"])
     scanner_sweep(ctx, rng, desc["part"], desc["parts"])
 
